@@ -313,6 +313,31 @@ def _bounded_while(cx, fn, loops):
       continue
     conj = lp.test.values if isinstance(lp.test, ast.BoolOp) and isinstance(lp.test.op, ast.And) else [lp.test]
     measured = None
+    countdown = None
+    for t in conj:
+      # remaining = LIMIT; while remaining > 0 and ...: batch.append(queue.popleft()); remaining -= 1
+      if isinstance(t, ast.Compare) and len(t.ops) == 1 and isinstance(t.ops[0], ast.Gt) and isinstance(t.left, ast.Name) and \
+         isinstance(t.comparators[0], ast.Constant) and t.comparators[0].value == 0:
+        n_ = t.left.id
+        inits = [st for st in walk_no_nested(fn.node, include_self=False) if isinstance(st, ast.Assign) and
+                 any(isinstance(tg, ast.Name) and tg.id == n_ for tg in st.targets)]
+        decs = [st for st in lp.body if isinstance(st, ast.AugAssign) and isinstance(st.op, ast.Sub) and dotted(st.target) == n_ and
+                isinstance(st.value, ast.Constant) and st.value.value == 1]
+        other = [st for st in ast.walk(lp) if isinstance(st, (ast.AugAssign, ast.Assign)) and st not in decs and
+                 any(isinstance(x, ast.Name) and x.id == n_ and isinstance(x.ctx, ast.Store) for x in ast.walk(st))]
+        if len(inits) == 1 and vn.term(inits[0].value, inits[0]) == LIMIT and len(decs) == 1 and not other and \
+           not any(x is inits[0] for x in ast.walk(lp)):
+          countdown = n_
+    if countdown is not None:
+      grows_c = [s_ for s_ in lp.body if isinstance(s_, ast.Expr) and isinstance(s_.value, ast.Call) and
+                 isinstance(s_.value.func, ast.Attribute) and s_.value.func.attr == 'append' and isinstance(s_.value.func.value, ast.Name)]
+      pops_c = [c for c in ast.walk(lp) if isinstance(c, ast.Call) and isinstance(c.func, ast.Attribute) and c.func.attr in ('popleft', 'pop')]
+      rets_c = [r for r in walk_no_nested(fn.node, include_self=False) if isinstance(r, ast.Return)]
+      if len(grows_c) == 1 and len(pops_c) == 1 and any(x is pops_c[0] for x in ast.walk(grows_c[0])) and rets_c and \
+         all(isinstance(r.value, ast.Name) and r.value.id == grows_c[0].value.func.value.id for r in rets_c) and \
+         not any(isinstance(x, ast.Continue) for x in ast.walk(lp)):
+        out.append(lp)
+        continue
     for t in conj:
       if isinstance(t, ast.Compare) and len(t.ops) == 1 and isinstance(t.ops[0], ast.Lt) and vn.term(t.comparators[0], lp) == LIMIT and \
          isinstance(t.left, ast.Call) and isinstance(t.left.func, ast.Name) and t.left.func.id == 'len' and len(t.left.args) == 1 and \
